@@ -1,5 +1,5 @@
 (* C13 — Locale is a drop-in superset of LanguageIdentifier. *)
-From UL Require Import Bytes Subtags LangId Ext Grammar LangIdSpec LangIdProofs ExtProofs LocaleSpec LocaleSpecProofs RoundTrip PrefixProofs.
+From UL Require Import Bytes Subtags LangId Ext Grammar LangIdSpec LangIdProofs ExtProofs LocaleSpec LocaleSpecProofs RoundTrip Prefix PrefixProofs.
 From Coq Require Import String.
 
 (* every input LanguageIdentifier accepts: same id, no extensions *)
@@ -42,11 +42,17 @@ Theorem C13_prefix_is_before_singleton : forall toks id rem,
   toks <> [] -> spec_langid_prefix toks = Some (id, rem) -> ext_stop rem ->
   toks = fst (split_single toks) ++ rem /\ langid_from_bytes (join (fst (split_single toks))) = Ok id.
 Proof. exact prefix_before_singleton. Qed.
+(* in the executable form the oracle evaluates on every case (`before_single`, spec/Prefix.v) *)
+Theorem C13_before_first_singleton_exec : forall s v,
+  spec_locale_zone (split s) = MustAccept v ->
+  locale_from_bytes s = Ok v /\ langid_from_bytes (join (before_single (split s))) = Ok (loc_id v).
+Proof. exact locale_id_before_single. Qed.
 Example C13_before_ex :
   fst (split_single (split (bs "sr_Cyrl-RS-u-ca-buddhist-x-a"%string))) = [bs "sr"; bs "Cyrl"; bs "RS"]%string
   /\ exists v, spec_locale_zone (split (bs "sr_Cyrl-RS-u-ca-buddhist-x-a"%string)) = MustAccept v.
 Proof. split; [vm_compute; reflexivity|eexists; vm_compute; reflexivity]. Qed.
 Print Assumptions C13_before_first_singleton.
+Print Assumptions C13_before_first_singleton_exec.
 Print Assumptions C13_prefix_is_before_singleton.
 
 Print Assumptions C13_embed.
